@@ -186,6 +186,13 @@ pub fn run_case(ctx: &Ctx, case: &Case) -> Outcome {
     if fail.is_none() && case.primary_restarts {
         if !case.primary_killed {
             c.nodes[0].node.as_ref().unwrap().shutdown();
+        } else {
+            // a key the primary has never seen is written just before the kill: its registration makes the op-log flag
+            // invalid, the start-up will discard the log and the keys map (the write itself is lost with the kill unless
+            // a snapshot stored it: the joiner is compared with what the primary holds afterwards)
+            let auth = format!("auth {} {}", crate::node::USER, crate::node::PWD);
+            c.client(0, vec![auth, format!("use-db {} tok0", dbname(0)), "set fresh-before-the-kill 1".to_string()]);
+            settle(&mut c, "before the kill of the primary", &mut fail);
         }
         c.kill(0);
         c.boot(0);
@@ -578,6 +585,12 @@ fn away_scripts(max_len: usize) -> Vec<Case> {
                 out.push(Case { before: vec![Cmd::Snapshot { db: 0 }], away: away.clone(), during: vec![], leave: leave.to_string(), disk: "kept".to_string(), joiner_snapshots: true, schedule: vec![], primary_restarts: false, primary_killed: false, resolved_conflict_while_away: None });
                 if len <= 2 {
                     out.push(Case { before: vec![Cmd::Snapshot { db: 0 }], away: away.clone(), during: vec![], leave: leave.to_string(), disk: "kept".to_string(), joiner_snapshots: true, schedule: vec![], primary_restarts: true, primary_killed: false, resolved_conflict_while_away: None });
+                }
+                if len <= 2 {
+                    // the primary is KILLED while the joiner is away, with a key registered since its last key-map
+                    // snapshot: its start-up discards the op-log and the keys map and loads d0 from its snapshot; the keys
+                    // written before have no id when the away script touches them
+                    out.push(Case { before: vec![Cmd::Set { db: 0, k: "a".into(), v: "x".into() }, Cmd::Snapshot { db: 0 }, Cmd::Set { db: 0, k: "b".into(), v: "x".into() }], away: away.clone(), during: vec![], leave: leave.to_string(), disk: "kept".to_string(), joiner_snapshots: true, schedule: vec![], primary_restarts: true, primary_killed: true, resolved_conflict_while_away: None });
                 }
                 if len == 1 {
                     // an arbiter database that exists (and is on both disks) before the joiner leaves; while it is away a
